@@ -50,8 +50,9 @@ func (f *Formatter) Format(content string) (string, error) {
 	body = strings.TrimLeft(body, "\n")
 
 	// Check if this looks like a full document (starts with <!DOCTYPE or <html)
-	trimmedBody := strings.TrimSpace(body)
-	isFullDocument := strings.HasPrefix(trimmedBody, "<!DOCTYPE") || strings.HasPrefix(trimmedBody, "<html")
+	// (tag and doctype names are case-insensitive: <!doctype html>, <HTML>)
+	trimmedBody := strings.ToLower(strings.TrimSpace(body))
+	isFullDocument := strings.HasPrefix(trimmedBody, "<!doctype") || strings.HasPrefix(trimmedBody, "<html")
 
 	if isFullDocument {
 		return f.formatFullDocument(frontmatter, body)
@@ -69,7 +70,7 @@ func (f *Formatter) formatFullDocument(frontmatter, body string) (string, error)
 	var doctype string
 	var htmlContent string
 
-	if strings.HasPrefix(trimmedBody, "<!DOCTYPE") {
+	if len(trimmedBody) >= 9 && strings.EqualFold(trimmedBody[:9], "<!DOCTYPE") {
 		// Find the end of DOCTYPE declaration
 		endIdx := strings.Index(trimmedBody, ">")
 		if endIdx != -1 {
